@@ -493,6 +493,6 @@ MUTANTS = [
 
 
 def run(ctx):
-    ctx.search("auth", cases(), quick=2500, thorough=8000)
+    ctx.search("auth", cases(), quick=2500, thorough=30000)
     if not ctx.quick():
         ctx.enumerate("auth", product_cases(), name="methods x cookie-state x provider x challenge product")
